@@ -48,10 +48,19 @@ def wiring(ctx, rep, mod, enc_half, dec_half, enc_fn, dec_fn, inline=None):
                     x = x[1]
                 fs.append(x)
             data_ok = strip(a[0]) == ("param", 2)
-            flds = [f[2] if (f[0] == "field" and f[1] == ("deref", ("param", 1))) else None for f in fs]
+            def own_field(f):
+                if f[0] == "field" and f[1] == ("deref", ("param", 1)):
+                    return f[2]
+                # the single field of a one-field newtype held in a field of self (`self.key.0`)
+                if f[0] == "field" and f[2] == 0 and f[1][0] == "field" and f[1][1] == ("deref", ("param", 1)):
+                    fty = ctx.fb.ty(ctx.fb.adt_fields(half)[f[1][2]]["ty"])
+                    if util.peel_newtype(ctx.fb, fty) is not fty:
+                        return f[1][2]
+                return None
+            flds = [own_field(f) for f in fs]
             # three distinct fields of self, in declaration roles: key (array), index, previous (u8, u8)
             adt = ctx.fb.adt_fields(half)
-            tys = [ctx.fb.ty(adt[i]["ty"]).k if i is not None else None for i in flds]
+            tys = [util.peel_newtype(ctx.fb, ctx.fb.ty(adt[i]["ty"])).k if i is not None else None for i in flds]
             good = data_ok and None not in flds and len(set(flds)) == 3 and tys == ["array", "int", "int"]
             desc = "raw(data, %s)" % ", ".join("self.%s" % adt[i]["name"] if i is not None else "?" for i in flds)
             # index / previous roles: new() gives both 0, so their order is fixed by the raw op's
